@@ -153,6 +153,202 @@ def record_fields(db, qn):
     return None
 
 
+# ------------------------------------------------------------------------------------------------
+# LT-LEX: operator< of a multi-component type is a lexicographic order of its components
+
+class _NoParse(Exception):
+    pass
+
+
+def _side_key(t, pa, pb):
+    """(component key with the parameter abstracted, side 'a'|'b') of an operand term"""
+    sides = set()
+
+    def sub(x):
+        if isinstance(x, tuple):
+            if x and x[0] == "v":
+                if x[1] == pa:
+                    sides.add("a")
+                    return ("v", 0, "@")
+                if x[1] == pb:
+                    sides.add("b")
+                    return ("v", 0, "@")
+            return tuple(sub(y) for y in x)
+        return x
+    k = sub(t)
+    if len(sides) != 1:
+        raise _NoParse("operand %s does not belong to exactly one of the two objects" % T.show(t))
+    return T.show(k), sides.pop()
+
+
+def _lt_expr(t, pa, pb):
+    """boolean expression over component relations: ('atom', comp, op, swapped) | ('not',e) | ('and'|'or',l,r) | ('ite',c,t,e) | ('lex',[comps], swapped)"""
+    if not isinstance(t, tuple) or not t:
+        raise _NoParse(str(t))
+    if t[0] == "cond":
+        return ("ite", _lt_expr(t[1], pa, pb), _lt_expr(t[2], pa, pb), _lt_expr(t[3], pa, pb))
+    if t[0] == "u" and t[1] == "!":
+        return ("not", _lt_expr(t[2], pa, pb))
+    if t[0] == "b" and t[1] in ("&&", "||"):
+        return ("and" if t[1] == "&&" else "or", _lt_expr(t[2], pa, pb), _lt_expr(t[3], pa, pb))
+    op = l = r = None
+    if t[0] == "b" and t[1] in ("<", ">", "<=", ">=", "==", "!="):
+        op, l, r = t[1], t[2], t[3]
+    elif t[0] == "c" and isinstance(t[1], str):
+        short = t[1].split("::")[-1]
+        ops = ([t[2]] if t[2] is not None else []) + list(t[3])
+        if short.startswith("operator") and short[8:] in ("<", ">", "<=", ">=", "==", "!=") and len(ops) == 2:
+            op, l, r = short[8:], ops[0], ops[1]
+            # rewritten three-way comparison: (x <=> y) < 0
+            if isinstance(l, tuple) and l and l[0] == "c" and str(l[1]).endswith("operator<=>") and "__unspec" in T.show(r):
+                lo = ([l[2]] if l[2] is not None else []) + list(l[3])
+                l, r = lo[0], lo[1]
+        elif short == "lexicographical_compare" and len(t[3]) == 4:
+            ka, sa = _side_key(t[3][0], pa, pb)
+            kb, sb = _side_key(t[3][2], pa, pb)
+            if ka != kb or sa == sb:
+                raise _NoParse("lexicographical_compare over different ranges")
+            return ("atom", "elements[%s]" % ka, "<", sa == "b")
+    if op is None:
+        raise _NoParse(T.show(t))
+    # pair / tuple operands: std lexicographic comparison of the listed components
+    def parts(x):
+        if isinstance(x, tuple) and x and x[0] == "c" and str(x[1]).split("::")[-1] in ("make_pair", "tie", "make_tuple", "forward_as_tuple"):
+            return list(x[3])
+        return None
+    pl, pr = parts(l), parts(r)
+    if pl is not None and pr is not None:
+        if len(pl) != len(pr) or op != "<":
+            raise _NoParse("pair comparison with different arity / operator")
+        comps, swapped = [], None
+        for x, y in zip(pl, pr):
+            kx, sx_ = _side_key(x, pa, pb)
+            ky, sy = _side_key(y, pa, pb)
+            if kx != ky or sx_ == sy:
+                raise _NoParse("the pairs list different components in the same position")
+            if swapped is None:
+                swapped = sx_ == "b"
+            elif swapped != (sx_ == "b"):
+                raise _NoParse("the pairs mix the two objects")
+            comps.append(kx)
+        return ("lex", comps, swapped)
+    kl, sl = _side_key(l, pa, pb)
+    kr, sr = _side_key(r, pa, pb)
+    if kl != kr or sl == sr:
+        raise _NoParse("comparison of different components: %s vs %s" % (kl, kr))
+    return ("atom", kl, op, sl == "b")
+
+
+def _lt_comps(e, out):
+    if e[0] == "atom":
+        if e[1] not in out:
+            out.append(e[1])
+    elif e[0] == "lex":
+        for c in e[1]:
+            if c not in out:
+                out.append(c)
+    else:
+        for x in e[1:]:
+            _lt_comps(x, out)
+    return out
+
+
+def _lt_eval(e, rel):
+    """rel: comp -> '<' | '=' | '>' (a relative to b)"""
+    if e[0] == "atom":
+        r = rel[e[1]]
+        if e[3]:
+            r = {"<": ">", ">": "<", "=": "="}[r]
+        return {"<": r == "<", ">": r == ">", "<=": r != ">", ">=": r != "<", "==": r == "=", "!=": r != "="}[e[2]]
+    if e[0] == "lex":
+        for c in e[1]:
+            r = rel[c]
+            if e[2]:
+                r = {"<": ">", ">": "<", "=": "="}[r]
+            if r != "=":
+                return r == "<"
+        return False
+    if e[0] == "not":
+        return not _lt_eval(e[1], rel)
+    if e[0] == "and":
+        return _lt_eval(e[1], rel) and _lt_eval(e[2], rel)
+    if e[0] == "or":
+        return _lt_eval(e[1], rel) or _lt_eval(e[2], rel)
+    if e[0] == "ite":
+        return _lt_eval(e[2], rel) if _lt_eval(e[1], rel) else _lt_eval(e[3], rel)
+    raise ValueError(e)
+
+
+def rule_lt_lex(rep, db):
+    import itertools
+    seen = set()
+    for fn in db.functions:
+        if fn.get("op") != "<" or len(fn.get("params", [])) != 2:
+            continue
+        u = fn["_unit"]
+        pts = [F.strip_targs((u.ty(p_["t"]) or "").replace("const ", "").replace(" &", "")) for p_ in fn["params"]]
+        if pts[0] != pts[1] or not pts[0].startswith("fcppt::") or pts[0] in seen or not u.file_of(fn["primary"]).startswith("libs/"):
+            continue
+        rets = [r for r in F.walk(fn.get("body"), into_lambdas=False) if r.get("k") == "return"]
+        if len(rets) != 1:
+            continue
+        seen.add(pts[0])
+        key = "%s operator<" % pts[0].replace("fcppt::", "")
+        pa, pb = fn["params"][0]["id"], fn["params"][1]["id"]
+        t = T.norm(u, rets[0]["e"])
+        # whole-object delegation (array_less(a, b), std::less(&a, &b), (a.impl() <=> b.impl()) < 0): one component
+        try:
+            e = _lt_expr(t, pa, pb)
+        except _NoParse as ex:
+            whole = isinstance(t, tuple) and t and t[0] == "c" and len(([t[2]] if t[2] is not None else []) + list(t[3])) == 2
+            if whole:
+                try:
+                    ops = ([t[2]] if t[2] is not None else []) + list(t[3])
+                    ka, sa = _side_key(ops[0], pa, pb)
+                    kb, sb = _side_key(ops[1], pa, pb)
+                    if ka == kb and sa == "a" and sb == "b":
+                        rep.ok("LT-LEX", key, F.primary_site(fn), F.describe(fn)[:160], how="delegates(%s(a, b))" % str(t[1]).split("::")[-1])
+                        continue
+                    if ka == kb and sa == "b":
+                        rep.fail("LT-LEX", key, F.primary_site(fn), F.describe(fn)[:160], why="delegates with the operands swapped: %s" % T.show(t))
+                        continue
+                except _NoParse:
+                    pass
+            rep.note("LT-LEX: %s is outside the accepted forms (%s); not decided" % (key, ex))
+            continue
+        comps = _lt_comps(e, [])
+        ok_perm = None
+        rows = list(itertools.product("<=>", repeat=len(comps)))
+        for perm in itertools.permutations(comps):
+            good = True
+            for row in rows:
+                rel = dict(zip(comps, row))
+                want = False
+                for c in perm:
+                    if rel[c] != "=":
+                        want = rel[c] == "<"
+                        break
+                if _lt_eval(e, rel) != want:
+                    good = False
+                    break
+            if good:
+                ok_perm = perm
+                break
+        if ok_perm is not None:
+            rep.ok("LT-LEX", key, F.primary_site(fn), F.describe(fn)[:160], how="lexicographic(%s)" % ", ".join(ok_perm), detail={"rows": len(rows)})
+        else:
+            bad = None
+            for row in rows:
+                rel = dict(zip(comps, row))
+                rel2 = {c: {"<": ">", ">": "<", "=": "="}[r] for c, r in rel.items()}
+                if _lt_eval(e, rel) and _lt_eval(e, rel2):
+                    bad = "a < b and b < a both hold when %s" % ", ".join("%s: a %s b" % (c, r) for c, r in rel.items())
+                    break
+            rep.fail("LT-LEX", key, F.primary_site(fn), F.describe(fn)[:160],
+                     why="operator< is not the lexicographic order of its components (%s) in any order%s" % (", ".join(comps), ("; " + bad) if bad else ""))
+
+
+
 def main(rep, tier, only):
     db = load.load(tier, lib=False, drivers=["drv_compare", "drv_oev"])
     rep.extra.update(db.stats())
@@ -160,9 +356,12 @@ def main(rep, tier, only):
     rep.rule("DERIVED", "!=, >, <=, >= are derived from == / < in an accepted form", floor=15)
     rep.rule("EQ-COVER", "operator== reads every value component of the type on both operands", floor=10)
     rep.rule("LT-COVER", "operator< reads the same component set as == on both operands", floor=4)
+    rep.rule("LT-LEX", "operator< of every fcppt value type is a lexicographic order of its components (some fixed order; truth table over "
+                       "the 3^k relations of the components), or a whole-object delegation with the operands in order", floor=6)
     rep.rule("HASH-COH", "hash reads only (and at least one of) the components == compares", floor=4)
     rep.rule("OE-TABLE", "decision tables of optional ==, <, either ==", floor=3)
     acc = accessor_map(db)
+    rule_lt_lex(rep, db)
     # ------------------------------------------------------------------ strong_typedef mirror
     seen = set()
     for fn in db.functions:
